@@ -236,7 +236,16 @@ fn remove_anonymous_from_statement(
             }
             Ok((build_log_call(meta, args), Vec::new()))
         }
-        Statement::Assert { meta, arg } => Ok((build_assert(meta, arg), Vec::new())),
+        Statement::Assert { meta, arg } => {
+            if arg.contains_anonymous_component(None) {
+                Err(AnonymousComponentError::boxed_report(
+                    &meta,
+                    "An anonymous component cannot be used inside an assert statement.",
+                ))
+            } else {
+                Ok((build_assert(meta, arg), Vec::new()))
+            }
+        }
         Statement::Return { meta, value: arg } => {
             if arg.contains_anonymous_component(None) {
                 Err(AnonymousComponentError::boxed_report(
@@ -294,6 +303,16 @@ fn remove_anonymous_from_statement(
             Ok((Statement::Block { meta, stmts: new_stmts }, declarations))
         }
         Statement::Substitution { meta, var, op, rhe, access } => {
+            for access in &access {
+                if let Access::ArrayAccess(index) = access {
+                    if index.contains_anonymous_component(None) {
+                        return Err(AnonymousComponentError::boxed_report(
+                            index.meta(),
+                            "An anonymous component cannot be used to access an array.",
+                        ));
+                    }
+                }
+            }
             let (mut stmts, declarations, new_rhe) =
                 remove_anonymous_from_expression(templates, file_library, rhe, var_access)?;
             let subs =
@@ -698,9 +717,25 @@ fn remove_tuples_from_statement(stmt: Statement) -> Result<Statement, Box<Report
                     }
                 }
             }
+            for arg in &new_args {
+                if let LogArgument::LogExp(exp) = arg {
+                    if exp.contains_tuple(None) {
+                        return Err(TupleError::boxed_report(
+                            exp.meta(),
+                            "Tuples cannot be used inside the expressions of a log statement.",
+                        ));
+                    }
+                }
+            }
             Ok(build_log_call(meta, new_args))
         }
-        Statement::Assert { meta, arg } => Ok(build_assert(meta, arg)),
+        Statement::Assert { meta, arg } => {
+            if arg.contains_tuple(None) {
+                Err(TupleError::boxed_report(&meta, "Tuples cannot be used in assert statements."))
+            } else {
+                Ok(build_assert(meta, arg))
+            }
+        }
         Statement::Return { meta, value } => {
             if value.contains_tuple(None) {
                 Err(TupleError::boxed_report(&meta, "Tuple cannot be used in return values."))
